@@ -1453,7 +1453,13 @@ func c14RunHistory(cs *c14Case, watchdog bool) *c14Hist {
 		return c14Direct(pf, f.Name, src)
 	}
 	for _, i := range cs.Seq {
-		h.Pre = append(h.Pre, apply(i))
+		r := apply(i)
+		h.Pre = append(h.Pre, r)
+		if r.Hang {
+			// the call did not come back: the calls after it would only wait
+			// for the same thing, each for the whole time limit
+			return h
+		}
 	}
 	if len(cs.Conc) == 0 {
 		return h
@@ -1729,6 +1735,11 @@ func evalC14API(cs *c14Case, info *c14Info) (sig, msg string) {
 		return fmt.Sprintf("%s:result-differs:alone-%s/history-%s", phase, w.kind(), got.kind()),
 			fmt.Sprintf("%s on input #%d (%s [%s]) gives %s; a fresh Parse followed by a single Apply on the same bytes gives %s%s\n%s",
 				call, idx, cs.Files[idx].Name, cs.Files[idx].Role, got, w, detail, cs.describeAPI())
+	}
+	if n := len(h.Pre); n > 0 && n <= len(cs.Seq) && h.Pre[n-1].Hang {
+		i := cs.Seq[n-1]
+		return "seq:hang", fmt.Sprintf("Apply call %d of the sequence, on input #%d (%s [%s]), did not return within %v; on a fresh patch.File the same call returns %s\n%s",
+			n, i, cs.Files[i].Name, cs.Files[i].Role, run.DefaultTimeout, want[i], cs.describeAPI())
 	}
 	if len(h.Pre) != len(cs.Seq) {
 		info.Harness = "history result has the wrong shape"
